@@ -7,7 +7,7 @@
                  ["*imm" (fn [t] (* t 2))] ["&" (fn [t] (band t 3))] ["<<imm" (fn [t] (blshift t 1))]
                  ["div" (fn [t] (div t 2))] ["mod" (fn [t] (mod t 2))] ["%" (fn [t] (% t 2))] ["~" (fn [t] (bnot t))]]
   (def m (fn [& xs] (deep 300) 42))
-  (def t @{:+ m :r+ m :* m :& m :<< m :div m :mod m :% m :~ m})
+  (def t @{:+ m :r+ m :* m :& m :<< m :div m :mod m :% m (keyword "~") m})
   (def fib (fiber/new (fn [] (mk t))))
   (def r (resume fib))
   (array/push log [name r]))
